@@ -847,6 +847,125 @@ func propC07(r *Run, w *World) {
 		r.Check(set(decStr) == set(encStr), "ToCommandLine vs addFilter", x.toCmd.Pos(), "", fmt.Sprintf("printer takes strings for {%s}, encoder stores strings for {%s}", set(decStr), set(encStr)))
 		r.Check(len(encStr) >= 14, "string class size", x.addFilter.Pos(), fmt.Sprint(len(encStr)), fmt.Sprintf("only %d string-class fields", len(encStr)))
 	}
+
+	// R7 the watch form
+	r.Rule("C07.R7", "the -w form is printed only for what -w installs: the rendering that starts with \"-w\" is reached only under allSyscalls, and never from the arm of the field walk taken by a field other than perm, path, dir and key (a rule limited to some syscalls, or with another filter, must be listed in the -a form or it re-encodes to a different rule)", 2)
+	{
+		var wBlocks []*ssa.BasicBlock
+		instrsOf(x.toCmd, func(in ssa.Instruction) {
+			var ops []*ssa.Value
+			for _, op := range in.Operands(ops) {
+				if c, ok := (*op).(*ssa.Const); ok {
+					if sv, isS := constString(c); isS && sv == "-w" {
+						wBlocks = append(wBlocks, in.Block())
+					}
+				}
+			}
+		})
+		isW := map[*ssa.BasicBlock]bool{}
+		for _, b := range wBlocks {
+			if isW[b] {
+				continue
+			}
+			isW[b] = true
+			okAll := false
+			for _, l := range GuardLits(b) {
+				if strings.HasSuffix(l, ".allSyscalls") && !strings.HasPrefix(l, "!") {
+					okAll = true
+				}
+			}
+			r.Check(okAll, "-w rendering under allSyscalls", b.Instrs[0].Pos(), "", "ToCommandLine prints the -w form on a path that has not established allSyscalls: a rule limited to some syscalls is listed as a watch, which re-encodes to a rule on all syscalls")
+		}
+		if len(wBlocks) == 0 {
+			r.Fail("-w rendering", x.toCmd.Pos(), "ToCommandLine has no \"-w\" rendering")
+		}
+		// default arms of the watch detection: blocks where one subject is known to differ from
+		// exactly the codes of perm, path, dir and key
+		want := map[string]bool{}
+		for _, n := range []string{"perm", "path", "dir", "key"} {
+			want[fmt.Sprint(x.fields[n])] = true
+		}
+		// only the part of the function from which the rendering is still reachable matters
+		canReach := map[*ssa.BasicBlock]bool{}
+		work := append([]*ssa.BasicBlock(nil), wBlocks...)
+		for len(work) > 0 {
+			b := work[len(work)-1]
+			work = work[:len(work)-1]
+			if canReach[b] {
+				continue
+			}
+			canReach[b] = true
+			work = append(work, b.Preds...)
+		}
+		nD := 0
+		for _, b := range x.toCmd.Blocks {
+			if len(b.Preds) != 1 {
+				continue
+			}
+			// the innermost guard must be one of the four inequalities (b is the else-successor of the chain's last test)
+			ifi, ok := b.Preds[0].Instrs[len(b.Preds[0].Instrs)-1].(*ssa.If)
+			if !ok || b.Preds[0].Succs[1] != b {
+				continue
+			}
+			bo, ok := ifi.Cond.(*ssa.BinOp)
+			if !ok || bo.Op != token.EQL {
+				continue
+			}
+			subj := bo.X
+			if _, isC := subj.(*ssa.Const); isC {
+				subj = bo.Y
+			}
+			ne := map[string]bool{}
+			for _, g := range GuardsAt(b) {
+				gb, ok := g.Cond.(*ssa.BinOp)
+				if !ok || g.Pol || gb.Op != token.EQL {
+					continue
+				}
+				a, c := gb.X, gb.Y
+				if _, isC := a.(*ssa.Const); isC {
+					a, c = c, a
+				}
+				cc, isC := c.(*ssa.Const)
+				if !isC || cc.Value == nil || Term(a) != Term(subj) {
+					continue
+				}
+				ne[cc.Value.ExactString()] = true
+			}
+			if len(ne) != len(want) {
+				continue
+			}
+			same := true
+			for k := range want {
+				if !ne[k] {
+					same = false
+				}
+			}
+			if !same {
+				continue
+			}
+			nD++
+			ps, complete := Paths(x.toCmd, PathOpts{Start: b, StopAt: func(bb *ssa.BasicBlock) bool { return isW[bb] }, Within: canReach, Cap: 2000})
+			reach := ""
+			for _, p := range ps {
+				if p.End == "stop" {
+					reach = compactPath(p)
+					break
+				}
+			}
+			switch {
+			case reach != "":
+				r.Fail("other field leaves the watch form", b.Instrs[0].Pos(), "a rule with a field other than perm, path, dir and key can still be printed in the -w form (the extra filter is lost on re-encoding): "+reach)
+			case !complete:
+				r.Undecided("other field leaves the watch form", b.Instrs[0].Pos(), "path cap exceeded")
+			default:
+				r.OK("other field leaves the watch form", b.Instrs[0].Pos(), "")
+			}
+		}
+		if nD == 0 {
+			r.Fail("watch detection default arm", x.toCmd.Pos(), "ToCommandLine has no arm for fields other than perm, path, dir and key in its watch detection")
+		}
+	}
+
 }
 
 // ---------------------------------------------------------------------------------------------
